@@ -219,3 +219,8 @@ def run(chk):
         ev = sum(int(x) << (64 * i) for i, x in enumerate(g[0]))
         chk.fact("%s = 2^%d * 2^256 mod l (Montgomery form), reduced" % (nm, e), ev == (2**e) * (2**256) % L, [E + "init"], "concrete")
     chk.samples = [o.j() for o in chk.obs if "value =" in o.name][:6]
+
+
+def safety_net(chk):
+    return (setter_replay(chk, "SetCanonicalBytes", 32, lambda b: int.from_bytes(b, "little"), lambda b: int.from_bytes(b, "little") < L)
+            or setter_replay(chk, "SetUniformBytes", 64, lambda b: int.from_bytes(b, "little")) or setter_replay(chk, "SetBytesWithClamping", 32, clamp_py))
